@@ -8,8 +8,8 @@ class C15(Prop):
     named_errors = {"Null", "Invalid"}    # "absent directories (null error) and sizes that are not a record multiple (invalid)"
     pid = "C15"
     title = "Debug, TLS, load-config, exception, security directories are decoded as stored"
-    thm_modules = ["PeliteModel.Thm.C15", "PeliteModel.Thm.ImageLayout"]
-    gens = [gen_dirs.gen_dirs_corpus, gen_dirs.gen_dirs_examples, gen_dirs.gen_dirs, gen_dirs.gen_dirs_cv_bounds, gen_dirs.gen_dirs_fuzz, gen_dirs.gen_pogo_hist]
+    thm_modules = ["PeliteModel.Thm.C15", "PeliteModel.Thm.ImageLayout", "PeliteModel.Thm.C15Layout"]
+    gens = [gen_dirs.gen_dirs_corpus, gen_dirs.gen_dirs_examples, gen_dirs.gen_dirs, gen_dirs.gen_dirs_cv_bounds, gen_dirs.gen_dirs_overlay, gen_dirs.gen_dirs_fuzz, gen_dirs.gen_pogo_hist]
 
     def oracle(self, op, impl, model, spec):
         a = op.split(" ")
